@@ -240,7 +240,9 @@ def structural(rep, prog):
             rep.violate("C19.s1", "s1|state", fs.where(bi, si), "from_seed stores %s instead of the seed" % T.show(val), config=cfg)
 
     # ---- s2 float sample bit budget
-    uf = prog.body("retrofire_core::<math::rand::Uniform<f32> as math::rand::Distrib>::sample")
+    uf0 = prog.body("retrofire_core::<math::rand::Uniform<f32> as math::rand::Distrib>::sample")
+    # helpers of the module (a `next_unit_f32` on the generator, say) are inlined; the generator step stays a call
+    uf = prog.inlined(uf0, depth=2, pred=lambda cb: cb.path.startswith("retrofire_core::math::rand::") and not cb.path.endswith("::next_bits"))
     usl = T.Slicer(uf)
     fb = list(uf.calls(lambda c: facts.callee_matches(c, "f32>::from_bits")))
     rep.floor("C19.s2", len(fb), 1, "f32::from_bits call in Uniform<f32>::sample")
@@ -283,7 +285,7 @@ def structural(rep, prog):
                                           "f32>::min": S2._opaque("fmin"), "f32>::max": S2._opaque("fmax"), "f32>::clamp": S2._opaque("fclamp")})
             me = ("adt", "retrofire_core::math::rand::Uniform", "Uniform", [("adt", RNG, "Range", [S2.sym("S"), S2.sym("E")])])
             try:
-                val = A2.deref_all(it2, it2.call_body(uf, [S2.ref_to(me), A2.UNKNOWN]))
+                val = A2.deref_all(it2, it2.call_body(uf0, [S2.ref_to(me), A2.UNKNOWN]))
             except (A2.Undecided, A2.Panic) as e:
                 raise common.Infra("C19.s2: float sample is computed through constructs the rule cannot interpret (%s)" % e)
             wit = None
@@ -400,7 +402,8 @@ def structural(rep, prog):
 
     # ---- s4 rejection samplers
     for nm in ("VectorsOnUnitDisk", "VectorsInUnitBall"):
-        b = prog.body("retrofire_core::<math::rand::%s as math::rand::Distrib>::sample" % nm)
+        b = prog.inlined(prog.body("retrofire_core::<math::rand::%s as math::rand::Distrib>::sample" % nm), depth=3,
+                         pred=lambda cb: cb.path.startswith("retrofire_core::math::rand::") and cb.impl_trait is None and not cb.path.endswith("::next_bits"))
         bsl = T.Slicer(b)
 
         def is_accept(d):
@@ -421,11 +424,13 @@ def structural(rep, prog):
         if edges:
             d, _neg = G.strip_not(bsl.operand(b.term(edges[0][0])["discr"]))
             ls = (T.calls_in(d, "len_sqr") or [None])[0]
-            tested = T.strip(ls[2][0], refs=True) if ls else None
-            # returned value: any assignment to _0
-            rvals = [T.strip(bsl.operand(s["rv"]["a"]), refs=True) for _bi, _si, s in b.stmts()
+            # call sites are kept: two draws from the same distribution are two different values
+            tested = T.strip(ls[2][0], sites=False, refs=True) if ls else None
+            # returned value: any assignment to _0 (also as the destination of a call)
+            rvals = [T.strip(bsl.operand(s["rv"]["a"]), sites=False, refs=True) for _bi, _si, s in b.stmts()
                      if s["k"] == "Assign" and s["lhs"]["l"] == 0 and not s["lhs"]["p"] and s["rv"]["k"] == "Use"]
-            same = bool(rvals) and all(rv == tested for rv in rvals)
+            direct = [bi_ for bi_, t_ in b.calls(lambda c: True) if t_["dest"]["l"] == 0 and not t_["dest"]["p"] and bi_ in set(b.reachable(0))]
+            same = bool(rvals) and all(rv == tested for rv in rvals) and not direct
         rep.inst("C19.s4", "%s::sample returns only on the `len_sqr(v) <= 1` edge, and returns that v: %s / %s" % (nm, ok, same), config=cfg)
         if not ok:
             rep.violate("C19.s4", "s4|%s|guard" % nm, b.where(), "%s can return a vector that was not accepted by len_sqr(v) <= 1" % nm, config=cfg)
